@@ -214,31 +214,35 @@ fn observe_log(sess: &mut Sess, ws1: &Path) -> Option<Vec<(String, Vec<String>, 
     Some(v)
 }
 
-fn read_view(loader: &RepoLoader, head: &str, w: &World) -> Option<View> {
+fn read_view(loader: &RepoLoader, head: &str, w: &World) -> Result<View, String> {
     let op = cmdsess::load_op(loader, head);
-    let view = op.view().block_on().ok()?;
+    let view = op.view().block_on().map_err(|_| "view-load".to_string())?;
     let mut v = View::default();
     for h in view.heads() {
-        v.heads.push(*w.num.get(&h.hex())?);
+        v.heads.push(*w.num.get(&h.hex()).ok_or("view-head-not-observed")?);
     }
     v.heads.sort();
     for (name, target) in view.local_bookmarks() {
-        let id = target.as_normal()?;
-        let b: u64 = name.as_str().strip_prefix('b')?.parse().ok()?;
-        v.bms.push((b, *w.num.get(&id.hex())?));
+        // a conflicted bookmark (e.g. after abandoning a merge commit) counts with every added
+        // target, as `bookmarks()` and maybe_abandon_wc_commit see it
+        let b: u64 = name.as_str().strip_prefix('b').and_then(|x| x.parse().ok()).ok_or("view-bookmark-name")?;
+        for id in target.added_ids() {
+            v.bms.push((b, *w.num.get(&id.hex()).ok_or("view-bookmark-target-not-observed")?));
+        }
     }
     v.bms.sort();
     for (name, target) in view.local_tags() {
-        let id = target.as_normal()?;
-        let t: u64 = name.as_str().strip_prefix('t')?.parse().ok()?;
-        v.tags.push((t, *w.num.get(&id.hex())?));
+        let t: u64 = name.as_str().strip_prefix('t').and_then(|x| x.parse().ok()).ok_or("view-tag-name")?;
+        for id in target.added_ids() {
+            v.tags.push((t, *w.num.get(&id.hex()).ok_or("view-tag-target-not-observed")?));
+        }
     }
     v.tags.sort();
     for (name, id) in view.wc_commit_ids() {
-        v.wcs.push((ws_name_num(name.as_str()), *w.num.get(&id.hex())?));
+        v.wcs.push((ws_name_num(name.as_str()), *w.num.get(&id.hex()).ok_or("view-wc-not-observed")?));
     }
     v.wcs.sort();
-    Some(v)
+    Ok(v)
 }
 
 /// Folds a CLI observation into the world; returns the commits first seen now.
@@ -605,7 +609,10 @@ fn session(index: usize, mut rng: Rng, scratch: &Path, tier: &str) -> SessionRes
     if heads.len() != 1 {
         return failed_case("opheads0");
     }
-    let Some(v0) = read_view(&loader, &heads[0], &w) else { return failed_case("view0") };
+    let v0 = match read_view(&loader, &heads[0], &w) {
+        Ok(v) => v,
+        Err(e) => return failed_case(&format!("{e}-0")),
+    };
     w.view = v0;
     let init_term = format!(
         "(mk_repo {} {} {})",
@@ -759,7 +766,10 @@ fn session(index: usize, mut rng: Rng, scratch: &Path, tier: &str) -> SessionRes
         last_obs = obs.clone();
         let vis_before: BTreeSet<usize> = w.vis.iter().copied().collect();
         let Some(delta) = absorb(&mut w, &obs) else { return failed_case("absorb") };
-        let Some(v) = read_view(&loader, &heads[0], &w) else { return failed_case("view") };
+        let v = match read_view(&loader, &heads[0], &w) {
+            Ok(v) => v,
+            Err(e) => return failed_case(&e),
+        };
         let view_before = std::mem::replace(&mut w.view, v);
         let _ = view_before;
         let vis_after: BTreeSet<usize> = w.vis.iter().copied().collect();
